@@ -1321,8 +1321,20 @@ def continue_to_nested_if(fnode):
 
 
 def update_dictcomp_to_loop(fnode):
-    """X.update({k: v for t in R [if c]})   ->   for t in R: [if c:] X[k] = v"""
+    """X.update({k: v for t in R [if c]})   ->   for t in R: [if c:] X[k] = v      (also X.update((k, v) for t in R))"""
     fn = copy.deepcopy(fnode)
+    binds = {}
+    for n in ast.walk(fn):
+        if isinstance(n, ast.Name) and isinstance(n.ctx, ast.Store):
+            binds.setdefault(n.id, []).append(None)
+        if isinstance(n, ast.Assign) and len(n.targets) == 1 and isinstance(n.targets[0], ast.Name):
+            v_ = n.value
+            binds.setdefault(n.targets[0].id, []).append(
+                isinstance(v_, (ast.Dict, ast.DictComp)) or (isinstance(v_, ast.Call) and norm(v_.func) == 'dict'))
+    # every Store of the name is one of the recorded assignments and each of those binds a dict
+    dict_names = {k for k, v in binds.items() if v.count(None) == len(v) - v.count(None) and all(x for x in v if x is not None)
+                  and any(x for x in v)}
+    dict_names -= {a.arg for a in ast.walk(fn) if isinstance(a, ast.arg)}
     for n in list(ast.walk(fn)):
         for f in ('body', 'orelse', 'finalbody'):
             blk = getattr(n, f, None)
@@ -1331,11 +1343,18 @@ def update_dictcomp_to_loop(fnode):
             for i, s_ in enumerate(blk):
                 if isinstance(s_, ast.Expr) and isinstance(s_.value, ast.Call) and isinstance(s_.value.func, ast.Attribute) and \
                         s_.value.func.attr == 'update' and len(s_.value.args) == 1 and not s_.value.keywords and \
-                        isinstance(s_.value.args[0], ast.DictComp) and len(s_.value.args[0].generators) == 1:
+                        isinstance(s_.value.args[0], (ast.DictComp, ast.GeneratorExp, ast.ListComp)) and \
+                        len(s_.value.args[0].generators) == 1 and \
+                        (isinstance(s_.value.args[0], ast.DictComp) or
+                         (isinstance(s_.value.args[0].elt, ast.Tuple) and len(s_.value.args[0].elt.elts) == 2 and
+                          isinstance(s_.value.func.value, ast.Name) and s_.value.func.value.id in dict_names)):
+                    # (an iterable of (key, value) pairs updates a dict in iteration order like a dict display does; the
+                    # receiver is a dict when every binding of the name in the function is a dict display / dict(...))
                     comp = s_.value.args[0]
                     g = comp.generators[0]
-                    tgt = ast.Subscript(value=copy.deepcopy(s_.value.func.value), slice=comp.key, ctx=ast.Store())
-                    body = [ast.Assign(targets=[tgt], value=comp.value)]
+                    key_, val_ = (comp.key, comp.value) if isinstance(comp, ast.DictComp) else comp.elt.elts
+                    tgt = ast.Subscript(value=copy.deepcopy(s_.value.func.value), slice=key_, ctx=ast.Store())
+                    body = [ast.Assign(targets=[tgt], value=val_)]
                     for c in reversed(g.ifs):
                         body = [ast.If(test=c, body=body, orelse=[])]
                     blk[i] = ast.copy_location(ast.For(target=g.target, iter=g.iter, body=body, orelse=[]), s_)
